@@ -25,6 +25,17 @@ def _c01_units(prefix, prop, cq, ct):
     return us
 
 PROPERTIES = {
+ 'C09': dict(
+    level='exploration', exhaustive_claim=False,
+    rule='generated tables (1..8 columns, 1..12 rows; cells: arbitrary Unicode incl. separators, quotes, CR, LF, CRLF, blanks, U+0000, long cells, numbers, booleans, ISO dates, empty) x 5 separators x memory/stream x 5 encodings x BOM; forward: strict RFC 4180 reference parser recovers header + cells; converse: reference writer with free quoting / LF or CRLF / optional final break / permuted columns loads to the same rows (maps and typed by-name struct); ragged records rejected',
+    assumptions=TRUSTED + ['ref_csv.h (RFC 4180 ABNF), ref_utf.h; both self-tested', 'BOM-less streams: headers start with an ASCII character and cells hold no U+0000', 'recorded finding KF-14 (empty table) excluded: tables have >= 1 row'],
+    units=[U('c09_csv', 'c09_csv.cpp', flavour='asan', libs=['-lpugixml'], quick=dict(cases=25000, shards=8, min_eval=50000), thorough=dict(cases=1000000, shards=16, min_eval=1000000)),
+           U('c01_kf', 'c01_kf.cpp', flavour='asan', libs=['-lpugixml'], args=['--prop', 'kf14*'], quick=dict(cases=60, shards=1, min_eval=10), thorough=dict(cases=600, shards=1, min_eval=10))]),
+ 'C10': dict(
+    level='exploration', exhaustive_claim=False,
+    rule='documents of all four archives (arbitrary trees in an envelope with 0..600 bytes of padding that shifts every token across the 256-byte chunk boundary; CSV tables with long cells), valid and mutated (substitute / delete / insert / truncate), loaded from memory and from stringstream / short-read (1..k bytes per call) / non-seekable streams; saving to a UTF-8 BOM-less stream vs memory; oracle = differential (same value, or rejection by both)',
+    assumptions=TRUSTED + ['in-memory input is UTF-8 without BOM (the common domain of both entry points); mutated text documents stay well-formed UTF-8 (KF-52 recorded and witnessed)', 'non-seekable streams get in-order (unmodified) documents only', 'error categories: loaded / rejected by a SerializationException / validation / non-library exception'],
+    units=[U('c10_diff', 'c10_mem_vs_stream.cpp', flavour='asan', libs=['-lpugixml'], quick=dict(cases=30000, shards=8, min_eval=50000), thorough=dict(cases=1000000, shards=16, min_eval=1000000))]),
  'C13': dict(
     level='exploration', exhaustive_claim=False,
     rule='generated texts whose multi-unit characters sit around the chunk boundary x 5 encodings x BOM on/off x target char types {char, char16_t, char32_t} x chunk sizes {32, 64, 256} x {stringstream, short-read streambuf} x both policies; every truncation point (sampled, biased to the last characters); CEncodedStreamWriter; DetectEncoding on strings and streams; CSV/JSON/XML documents written by the independent encoder loaded through the stream entry points; oracle = ref_utf + bounded call counter',
